@@ -120,6 +120,8 @@ HAND = [
     "hostlist()", "hostlist().insert(0, 1)", "hostlist() + [4]",
     "hostset($.list)", "hostset($.list).len()", "ctxset($.dict)",
     "[hostset(1), $hv]", "[ctxset(2), $cv]", "hostset($hostvar)",
+    "$.dd.get(zz)", "$.dd.get(zz, 1)", "$.dd.get(p)", "$.dd[zz, 5]", "$.dd.zz",
+    "$.dd.keys()", "$.dd.containsKey(zz)", "$.dd + {r => 1}", "$.dd.set(zz, 1)",
     "call(len, [$.list], $.kw)", "call('len', [$.list], $.kw)",
     "call(join, [$.strs], $.kw2)", "call(len, [$.list], $hostkw)",
     "call(str, [$.n], $.kw)", "$.kw", "$.kw + {z => 1}", "$.kw.keys()",
@@ -155,13 +157,19 @@ def gen_doc(w):
         # keys that are not yaql keywords (filtered / special-cased by
         # helpers that treat dicts as keyword arguments)
         'kw': {'-x': 1, '1st': [2], 'a b': {'q': 1}, '$v': 3},
-        'kw2': {'sep': ',', '-bad': 1}}}
+        'kw2': {'sep': ',', '-bad': 1},
+        # a mapping with a __missing__ hook (collections.defaultdict)
+        'dd': {'p': [1], 'q': [2, 3]}}}
 
 
 def build_doc(spec):
     """fresh mutable python structure (lists, dicts, sets)"""
     def rec(v, key=None):
         if isinstance(v, dict):
+            if key == 'dd':
+                import collections
+                return collections.defaultdict(
+                    list, {k: rec(x, k) for k, x in v.items()})
             return {k: rec(x, k) for k, x in v.items()}
         if isinstance(v, list):
             if key == 'set':
@@ -275,10 +283,26 @@ def gen_case(seeds, params, index):
             else:
                 op['fault'] = ['abandon', f.choice([0, 1, 2])]
                 op['co'] = False
+        if s['kind'] == 'text' and s['flavour'] == 'default' and \
+                'fault' not in op and op.get('via') is None and \
+                w.random() < 0.07:
+            op['via'] = 'eval'      # yaql.eval(text, data): module caches
+            op['target'] = 'none'
+        if w.random() < 0.25 and 'fault' not in op:
+            op['twin'] = True       # then once more with an equal deep copy
         ops.append(op)
+        if op.get('via') in ('eval', 'yi') and di is not None and \
+                w.random() < 0.6:
+            # evaluate, let the host change the document in place, evaluate
+            # the same thing again on the same object (and on an equal copy)
+            ops.append({'op': 'mutate', 'doc': di, 'n': w.randrange(100, 200)})
+            ops.append(dict(op, twin=True))
+        if w.random() < 0.12 and di is not None:
+            # the host changes its own document in place between evaluations
+            ops.append({'op': 'mutate', 'doc': di, 'n': w.randrange(100, 200)})
         if w.random() < 0.35:
             # REUSE: an earlier (statement, document, mode), fault free
-            prev = w.choice(ops)
+            prev = w.choice([o for o in ops if o['op'] == 'eval'])
             ops.append({k: v for k, v in prev.items() if k != 'fault'})
     return {'stmts': stmts, 'docs': docs, 'ops': ops, 'faulty': faulty}
 
@@ -294,6 +318,8 @@ def prepare(params, replay=False):
         synth.collection_targets(fl)
         synth.chain_engine(fl)
     load_corpus()
+    for fl in ('default', 'legacy'):
+        synth.chain_engine(fl, {'yaql.x-wrap': 1})
     return {'corpus_expressions': len(load_corpus()),
             'hand_written_statements': len(HAND)}
 
@@ -447,6 +473,23 @@ class Host:
                 return {'layer': lname, 'exclusive_changed': True}
         return None
 
+    def mutate_doc(self, di, n):
+        """The host changes its own document in place (its right), and the
+        pristine snapshot moves with it."""
+        d = self.docs[di]
+        if isinstance(d, dict):
+            if isinstance(d.get('list'), list):
+                d['list'].append(n)
+            d['n'] = n % 10
+            if isinstance(d.get('dict'), dict):
+                d['dict']['a'] = n
+            if isinstance(d.get('recs'), list) and d['recs']:
+                d['recs'][0]['v'] = n % 5
+        elif isinstance(d, list):
+            d.append(n)
+        self.pristine[di] = ser.ser_value(d)
+        container_ids(d, self.host_ids)
+
     # -- statements ---------------------------------------------------------
     def statement(self, si, ci, co, fault):
         from yaql.language import expressions as X
@@ -470,12 +513,21 @@ class Host:
         st = self.stmt_cache.get(key)
         if st is not None:
             return st, fl
+        if s['kind'] == 'text' and not wrap:
+            # the public route: one long-lived engine, per-call options
+            # (engine(expression, options) derives a copy and parses there);
+            # nothing else parses this text first
+            st = synth.chain_engine(fl)(s['expr'], opts)
+            self.stmt_cache[key] = st
+            return st, fl
         base = self.stmt_cache.get(('expr', si))
         if base is None:
             if s['kind'] == 'synth':
                 base = synth.build_call(fl, s['call'])
             else:
-                base = synth.chain_engine(fl)(s['expr']).expression
+                # a separate engine for the wrapped (fault-carrying) variants
+                base = synth.chain_engine(fl, {'yaql.x-wrap': 1})(
+                    s['expr']).expression
             self.stmt_cache[('expr', si)] = base
         expr = base
         if wrap and wrap[0] == 'stream':
@@ -485,7 +537,7 @@ class Host:
         elif wrap and wrap[0] == 'probe':
             expr = X.ListExpression(synth.parse_lambda(fl, 'probe(0)'), base,
                                     synth.parse_lambda(fl, 'probe(1)'))
-        engine = synth.chain_engine(fl).copy(opts)
+        engine = synth.chain_engine(fl, {'yaql.x-wrap': 1}).copy(opts)
         st = X.Statement(expr, engine)
         self.stmt_cache[key] = st
         return st, fl
@@ -564,6 +616,7 @@ def execute(case, stats):
     host = Host(case)
     viols = []
     first = {}
+    docver = {}
     nabort = 0
     nops = 0
     undo_rand = seams.patch_random(12345)
@@ -573,6 +626,12 @@ def execute(case, stats):
     sys.settrace(call_tracer(os.path.join(core.repo_root(), 'yaql') + os.sep))
     try:
         for step, op in enumerate(case['ops']):
+            if op['op'] == 'mutate':
+                if op['doc'] < len(host.docs):
+                    host.mutate_doc(op['doc'], op['n'])
+                    docver[op['doc']] = docver.get(op['doc'], 0) + 1
+                    stats.inc('fault.host_mutated_its_document')
+                continue
             if op['stmt'] >= len(case['stmts']) or \
                     (op['doc'] is not None and op['doc'] >= len(case['docs'])):
                 continue
@@ -621,19 +680,27 @@ def execute(case, stats):
             outcome = None
             aborted = False
             _calls[0] = 0
-            try:
+            def route(data_, ctx_):
                 if via_yi:
                     from yaql import yaql_interface
-                    yi = yaql_interface.YaqlInterface(ctx, st.engine)
-                    args = () if data is utils.NO_VALUE else (data,)
-                    r = yi(case['stmts'][op['stmt']]['expr'], *args,
-                           **{'who': 'x', 'items': [1, 2]}) \
-                        if not args else \
-                        yi(case['stmts'][op['stmt']]['expr'], data, 7,
-                           who='x', items=[1, 2])
+                    yi = yaql_interface.YaqlInterface(ctx_, st.engine)
+                    if data_ is utils.NO_VALUE:
+                        return yi(case['stmts'][op['stmt']]['expr'],
+                                  who='x', items=[1, 2])
+                    return yi(case['stmts'][op['stmt']]['expr'], data_, 7,
+                              who='x', items=[1, 2])
+                if op.get('via') == 'eval' and \
+                        case['stmts'][op['stmt']]['kind'] == 'text':
+                    import yaql as _y
+                    return _y.eval(case['stmts'][op['stmt']]['expr'],
+                                   None if data_ is utils.NO_VALUE else data_)
+                return st.evaluate(data=data_, context=ctx_)
+            try:
+                r = route(data, ctx)
+                if via_yi:
                     stats.inc('probe.evaluations_via_yaql_interface')
-                else:
-                    r = st.evaluate(data=data, context=ctx)
+                elif op.get('via') == 'eval':
+                    stats.inc('probe.evaluations_via_yaql_eval')
                 if fault and fault[0] == 'abandon':
                     it = iter(r) if utils.is_iterator(r) else None
                     if it is not None:
@@ -715,8 +782,10 @@ def execute(case, stats):
                 stats.inc('probe.alias_checked_results')
             # I4: history independence
             if not viols and not fault:
-                key = (op['stmt'], op['doc'], op['ci'], op['co'],
-                       'none' if tgt == 'none' else 'host', bool(via_yi), hfl)
+                key = (op['stmt'], op['doc'], docver.get(op['doc'], 0),
+                       op['ci'], op['co'],
+                       'none' if tgt == 'none' else 'host', bool(via_yi), hfl,
+                       op.get('via') == 'eval')
                 prev = first.get(key)
                 if prev is None:
                     first[key] = (outcome, step, nabort)
@@ -757,6 +826,35 @@ def execute(case, stats):
                     stats.inc('probe.reuse_compared')
                     if nabort - prev[2] > 0:
                         stats.inc('probe.reuse_after_aborted_evaluation')
+            # I5: equal data (a deep copy, i.e. another object) => equal result
+            if not viols and op.get('twin') and not fault and \
+                    data is not utils.NO_VALUE and outcome[0] in ('ok', 'raised'):
+                import copy
+                try:
+                    c2 = ctx if tgt in ('P', 'C', 'none') else \
+                        L['P'].create_child_context()
+                    r2 = materialise(route(copy.deepcopy(data), c2))
+                    o2 = ['ok', scrub(ser.ser_value(r2))]
+                except core.SimBudgetExceeded:
+                    o2 = ['raised', 'step-budget']
+                except Exception as e2:
+                    o2 = ['raised', type(e2).__name__]
+                stats.inc('probe.twin_evaluations')
+                if o2 != outcome and not (o2[0] == 'raised' and
+                                          outcome[0] == 'raised'):
+                    # confirm against address-dependent outcomes
+                    try:
+                        r3 = materialise(route(data, ctx if tgt in (
+                            'P', 'C', 'none') else L['P'].create_child_context()))
+                        o3 = ['ok', scrub(ser.ser_value(r3))]
+                    except Exception as e3:
+                        o3 = ['raised', type(e3).__name__]
+                    if o3 == outcome:
+                        viols.append(v_('equal-data-different-result', step,
+                                        descr, {'with_host_object': outcome,
+                                                'with_equal_copy': o2}))
+                    else:
+                        stats.inc('nd.address_dependent_outcome_skipped')
             if outcome[0] == 'ok':
                 stats.inc('outcome.ok')
             else:
@@ -823,6 +921,11 @@ def shrink_candidates(case):
             i += step
         step //= 2
     for i, op in enumerate(ops):
+        if op['op'] != 'eval':
+            continue
+        if op.get('twin'):
+            no = {k: v for k, v in op.items() if k != 'twin'}
+            yield mk(ops=ops[:i] + [no] + ops[i + 1:])
         if op.get('fault'):
             no = {k: v for k, v in op.items() if k != 'fault'}
             yield mk(ops=ops[:i] + [no] + ops[i + 1:])
